@@ -41,6 +41,8 @@ ASSUMPTIONS = [
 MIN_NONTRIVIAL = 60
 REQUIRED_COUNTERS = ["constructs_due", "constructs_not_due", "module_writer_calls_checked", "crash_points_fired", "recoveries_checked", "race_processes_ok", "midwrite_crashes"]
 REQUIRED_COUNTERS += ["thread_race_constructions"]
+RULE += "; in every other history the source grows with each version and ends in a line that makes the compiler warn"
+REQUIRED_COUNTERS += ["constructs_of_warning_templates"]
 RULE += "; the templates of the thread race hold control structures (if/else, for, try/except) and every racing render is compared with the solo render of its source"
 SHARDS = {"quick": 32, "thorough": 64}
 
@@ -92,13 +94,17 @@ def modpath(md, src):
     return os.path.abspath(os.path.join(md, os.path.normpath(src).lstrip("/") + ".py"))
 
 
-def body_for(version, big=False, cached=False):
+def body_for(version, big=False, cached=False, warn=False):
     s = "SRC#%d" % version
     if cached:
         # the text comes out of a cached def: after a rewrite of the module it must be the NEW text all the same
         s = '<%%def name="c_()" cached="True">SRC#%d</%%def>${c_()}' % version
     if big:
         s += "\n" + "\n".join("line %d of filler ${%d}" % (i, i) for i in range(1500))
+    if warn:
+        # every version is longer than the one before, and its last line makes the compiler warn (invalid escape): the
+        # warning is shown while the module generated from THIS text is loaded, whatever module file was there before
+        s += "\n" + "\n".join("grown line %d ${%d}" % (i, i) for i in range(version * 5)) + "\n${len('\\d')}"
     return s
 
 
@@ -121,7 +127,8 @@ def run_hist(ops, res, rc, via="template-moddir", cached=None):
     T = _st["Template"]
     if cached is None:
         cached = rc.get("cached", (len(ops) + sum(map(len, ops))) % 2 == 0)
-    rc = dict(rc, via=via, cached=cached)
+    warn = rc.get("warn", len(ops) % 2 == 0)
+    rc = dict(rc, via=via, cached=cached, warn=warn)
     ckw = {"cache_impl": "c15rec"} if cached else {}
     _st["C15Rec"].store.clear()
     try:
@@ -151,7 +158,7 @@ def run_hist(ops, res, rc, via="template-moddir", cached=None):
         ver = 1
         clock.now = CLOCK0
         with open(src, "w") as f:
-            f.write(body_for(ver, cached=cached))
+            f.write(body_for(ver, cached=cached, warn=warn))
         os.utime(src, (clock.now, clock.now))
         S = {"version": ver, "mtime": clock.now}
         M = None  # dict(frm, mtime, magic_ok)
@@ -164,7 +171,7 @@ def run_hist(ops, res, rc, via="template-moddir", cached=None):
                 ref = M["mtime"] if M else clock.now
                 mt = {"src-newer": ref + 1, "src-equal": ref, "src-older": ref - 1}[op]
                 with open(src, "w") as f:
-                    f.write(body_for(ver, cached=cached))
+                    f.write(body_for(ver, cached=cached, warn=warn))
                 os.utime(src, (mt, mt))
                 S = {"version": ver, "mtime": mt}
             elif op == "delete-module":
@@ -201,8 +208,14 @@ def run_hist(ops, res, rc, via="template-moddir", cached=None):
                     st = os.stat(mp)
                     before = (st.st_ino, open(mp, "rb").read())
                 try:
-                    t = construct(writer if use_writer else None)
+                    import warnings as _w
+
+                    with _w.catch_warnings(record=True):
+                        _w.simplefilter("always")
+                        t = construct(writer if use_writer else None)
                     out = t.render_unicode()
+                    if warn:
+                        res.count("constructs_of_warning_templates")
                 except Exception as e:
                     res.violate("construct-raises", "[" + via + "] history %r: construct raised %s: %s" % (ops, type(e).__name__, e), replay_case=rc)
                     return
